@@ -1302,6 +1302,161 @@ Proof.
     intros H. injection H as H1 H2. subst d' e. exists c. auto.
 Qed.
 
+(* ------------------------------------------------------------------ contract *)
+Lemma isum_swap n m (f : nat -> nat -> C) :
+  isum n (fun a => isum m (fun b => f a b)) = isum m (fun b => isum n (fun a => f a b)).
+Proof. unfold isum. apply (csum_swap f (seq 0 n) (seq 0 m)). Qed.
+
+Lemma map_res_map {A B D} (F : B -> res D) (h : A -> B) l : map_res F (map h l) = map_res (fun x => F (h x)) l.
+Proof. induction l as [|x l IH]; cbn; [reflexivity|]. destruct (F (h x)); [rewrite IH|]; reflexivity. Qed.
+
+Lemma combine3_map {A B D} (f : A -> B) (g : A -> D) l :
+  combine (combine (map f l) (map g l)) l = map (fun p => ((f p, g p), p)) l.
+Proof. induction l as [|x l IH]; cbn; [reflexivity | rewrite IH; reflexivity]. Qed.
+
+Lemma map_opt_some {A B} (f : A -> option B) l r (dflt : B) : map_opt f l = Some r ->
+  r = map (fun x => match f x with Some y => y | None => dflt end) l /\ (forall x, In x l -> f x <> None).
+Proof.
+  revert r. induction l as [|x l IH]; intros r H; cbn in H.
+  - injection H as <-. split; [reflexivity | intros x []].
+  - destruct (f x) as [y|] eqn:E; [|discriminate]. destruct (map_opt f l) as [r'|]; [|discriminate]. injection H as <-.
+    destruct (IH r' eq_refl) as [-> Hn]. split; [cbn; rewrite E; reflexivity|].
+    intros x' [<-|Hin]; [rewrite E; discriminate | apply Hn; exact Hin].
+Qed.
+
+Lemma forallb_nth {A} (F : A -> bool) (l : list A) t d : forallb F l = true -> F d = true -> F (nth t l d) = true.
+Proof.
+  intros H Hd. destruct (Nat.lt_ge_cases t (length l)) as [L|L].
+  - rewrite forallb_forall in H. apply H. apply nth_In. exact L.
+  - rewrite nth_overflow by lia. exact Hd.
+Qed.
+
+Lemma norm_index_ok n k : in_rangeb n k = true -> norm_index n k = Ok (if k <? 0 then k + n else k).
+Proof. unfold norm_index, in_rangeb. intros ->. reflexivity. Qed.
+
+Lemma sel_idx_ok ix p u n P : zlen u = n -> cidx_ok n P ix = true ->
+  sel_idx ix p u = Ok (map (vget u) (sel_pos ix p n)).
+Proof.
+  intros Ln Hok. unfold sel_idx, sel_pos. destruct ix as [i|].
+  - cbn [cidx_ok] in Hok. apply andb_true_iff in Hok as [Hok _].
+    set (t := match ci_bs i with None => 0%nat | Some _ => p end).
+    assert (Et : match ci_bs i with None => nth 0%nat (ci_rows i) [] | Some _ => nth p (ci_rows i) [] end = nth t (ci_rows i) [])
+      by (unfold t; destruct (ci_bs i); reflexivity).
+    rewrite Et. pose proof (forallb_nth (fun l => forallb (in_rangeb n) l) (ci_rows i) t [] Hok eq_refl) as Hl.
+    rewrite Ln. rewrite (map_res_ok _ (fun k => if k <? 0 then k + n else k)).
+    + unfold vtake. rewrite !map_map. reflexivity.
+    + intros k Hk. apply norm_index_ok. rewrite forallb_forall in Hl. apply Hl. exact Hk.
+  - f_equal. rewrite <- (vtab_id u) at 1. unfold vtab. rewrite (zlen_nat _ _ Ln). reflexivity.
+Qed.
+
+(* the contribution of one dyad to batch item p, in closed form *)
+Definition fval (mat : option cmat) (rows cols : option cidx) (ul vl : Z) (u v : vec) (p : nat) : C :=
+  let ua := map (vget (vd u)) (sel_pos rows p ul) in
+  let va := map (vget (vd v)) (sel_pos cols p vl) in
+  match mat with
+  | None => vdot ua va
+  | Some m => vdot (vecmat ua (sel_mat m p) (Z.to_nat (cm_nc m))) va
+  end.
+
+Lemma dyad_forms_ok d mat rows cols P u v vals :
+  zlen (vd u) = dr d -> zlen (vd v) = dc d ->
+  cidx_ok (dr d) P rows = true -> cidx_ok (dc d) P cols = true ->
+  map_opt (dform d mat rows cols) (seq 0 P) = Some vals ->
+  dyad_forms mat rows cols P u v = Ok (map (fval mat rows cols (dr d) (dc d) u v) (seq 0 P)).
+Proof.
+  intros Lu Lv Hr Hc Hv. unfold dyad_forms.
+  rewrite (map_res_ok _ (fun p => map (vget (vd u)) (sel_pos rows p (dr d)))) by (intros p _; apply (sel_idx_ok rows p (vd u) (dr d) P Lu Hr)).
+  rewrite (map_res_ok _ (fun p => map (vget (vd v)) (sel_pos cols p (dc d)))) by (intros p _; apply (sel_idx_ok cols p (vd v) (dc d) P Lv Hc)).
+  rewrite combine3_map, map_res_map. cbn [fst snd].
+  apply map_res_ok. intros p Hp. destruct (map_opt_some _ _ _ c0 Hv) as [_ Hn]. specialize (Hn p Hp).
+  unfold form1, fval, dform in *. destruct mat as [m|].
+  - unfold zlen in *. rewrite !map_length.
+    destruct ((Z.of_nat (length (sel_pos rows p (dr d))) =? cm_nr m) && (Z.of_nat (length (sel_pos cols p (dc d))) =? cm_nc m)) eqn:E;
+      [|contradiction Hn; reflexivity].
+    apply andb_true_iff in E as [E1 E2]. rewrite E1. apply Z.eqb_eq in E2. rewrite <- E2, Z.eqb_refl. reflexivity.
+  - unfold zlen. rewrite !map_length.
+    destruct (Nat.eqb (length (sel_pos rows p (dr d))) (length (sel_pos cols p (dc d)))) eqn:E; [|contradiction Hn; reflexivity].
+    apply Nat.eqb_eq in E. rewrite E, Z.eqb_refl. reflexivity.
+Qed.
+
+Lemma vget_map_pos (u : vect) (ra : list nat) a : (a < length ra)%nat -> vget (map (vget u) ra) a = vget u (nth a ra 0%nat).
+Proof. intros H. unfold vget at 1. apply (nth_map_lt (vget u) ra a 0%nat c0 H). Qed.
+
+Lemma fval_sum c d mat rows cols p x : wf c -> R c d -> dform d mat rows cols p = Some x ->
+  psumf (fun u v => fval mat rows cols (dr d) (dc d) u v p) (us c) (vs c) = x.
+Proof.
+  intros W Rc. unfold dform, fval.
+  set (ra := sel_pos rows p (dr d)). set (cb := sel_pos cols p (dc d)).
+  destruct mat as [m|].
+  - destruct ((zlen ra =? cm_nr m) && (zlen cb =? cm_nc m)) eqn:E; [|discriminate]. intros H. injection H as <-.
+    apply andb_true_iff in E as [E1 E2]. apply Z.eqb_eq in E1, E2.
+    assert (Enc : Z.to_nat (cm_nc m) = length cb) by (rewrite <- E2; unfold zlen; apply Nat2Z.id).
+    rewrite (psumf_ext _ (fun u v => isum (length cb) (fun b => isum (length ra) (fun a =>
+               ent (nth a ra 0%nat) (nth b cb 0%nat) u v * mget (sel_mat m p) a b)%C))).
+    + rewrite psumf_isum. rewrite isum_swap. apply isum_ext. intros b _. rewrite psumf_isum. apply isum_ext. intros a _.
+      rewrite psumf_mul_r. rewrite (R_mget c d _ _ W Rc). reflexivity.
+    + intros u v _ _. unfold vdot. rewrite length_vecmat, Enc. apply isum_ext. intros b Hb.
+      unfold vecmat. rewrite vget_vtab by (rewrite Enc; exact Hb). rewrite map_length. rewrite isum_mul_r.
+      apply isum_ext. intros a Ha. rewrite !vget_map_pos by assumption. unfold ent. ring.
+  - destruct (Nat.eqb (length ra) (length cb)) eqn:E; [|discriminate]. intros H. injection H as <-.
+    apply Nat.eqb_eq in E.
+    rewrite (psumf_ext _ (fun u v => isum (length ra) (fun a => ent (nth a ra 0%nat) (nth a cb 0%nat) u v))).
+    + rewrite psumf_isum. apply isum_ext. intros a _. symmetry. apply (R_mget c d _ _ W Rc).
+    + intros u v _ _. unfold vdot. rewrite map_length. apply isum_ext. intros a Ha.
+      rewrite !vget_map_pos by lia. reflexivity.
+Qed.
+
+Lemma contract_flag c fmat : wf c ->
+  fle (existsb (fun q => vf (fst q) || vf (snd q) || fmat) (combine (us c) (vs c))) (fmat || cplx c).
+Proof.
+  intros W H. apply existsb_exists in H as [[u v] [Hin Hf]]. cbn [fst snd] in Hf.
+  apply orb_true_iff in Hf as [Hf|Hf]; [|rewrite Hf; reflexivity].
+  apply orb_true_iff in Hf as [Hf|Hf].
+  - rewrite (wf_f _ W u (or_introl (in_combine_l _ _ _ _ Hin)) Hf). apply orb_true_r.
+  - rewrite (wf_f _ W v (or_intror (in_combine_r _ _ _ _ Hin)) Hf). apply orb_true_r.
+Qed.
+
+Lemma contract_refines c d mat rows cols r : wf c -> R c d -> dcontract d mat rows cols = Some r ->
+  Rres (contract c mat rows cols) r.
+Proof.
+  intros W Rc. pose proof Rc as [Eu [Ev [_ Fl]]]. unfold dcontract, contract.
+  destruct ((dr d <? 0) || (dc d <? 0)); [discriminate|].
+  destruct (batch_shape mat rows cols) as [bso|e]; [|intros H; injection H as <-; reflexivity].
+  set (fmat := match mat with Some m => cm_f m | None => false end).
+  set (P := match bso with None => 1%nat | Some bs => Z.to_nat (zprod bs) end).
+  destruct (cidx_ok (dr d) P rows && cidx_ok (dc d) P cols && cmat_ok P mat) eqn:Eok; [|discriminate].
+  apply andb_true_iff in Eok as [Eok _]. apply andb_true_iff in Eok as [Hr Hc].
+  destruct (map_opt (dform d mat rows cols) (seq 0 P)) as [vals|] eqn:Ev'; [|discriminate].
+  intros H. injection H as <-.
+  assert (T : map_res (fun q => dyad_forms mat rows cols P (fst q) (snd q)) (combine (us c) (vs c)) =
+              Ok (map (fun q => map (fval mat rows cols (dr d) (dc d) (fst q) (snd q)) (seq 0 P)) (combine (us c) (vs c)))).
+  { apply map_res_ok. intros [u v] Hin. cbn [fst snd].
+    apply (dyad_forms_ok d mat rows cols P u v vals); auto.
+    - rewrite <- Eu. pose proof (wf_u _ W) as F. unfold vlens in F. rewrite Forall_forall in F. apply F. eapply in_combine_l; exact Hin.
+    - rewrite <- Ev. pose proof (wf_v _ W) as F. unfold vlens in F. rewrite Forall_forall in F. apply F. eapply in_combine_r; exact Hin. }
+  destruct (map_opt_some _ _ _ c0 Ev') as [Evals Hsome].
+  assert (V : forall p, (p < P)%nat -> vget vals p = psumf (fun u v => fval mat rows cols (dr d) (dc d) u v p) (us c) (vs c)).
+  { intros p Hp. rewrite Evals. change (map ?f (seq 0 P)) with (vtab P f). rewrite vget_vtab by exact Hp.
+    destruct (dform d mat rows cols p) as [x|] eqn:Ex.
+    - symmetry. apply (fval_sum c d mat rows cols p x W Rc Ex).
+    - exfalso. apply (Hsome p); [apply in_seq; lia | exact Ex]. }
+  destruct bso as [bs|]; unfold P in *.
+  - (* batch *)
+    rewrite T. cbn [Rres Rout out_le]. splits; auto.
+    + rewrite vzeros_tab, fold_vadd_tab.
+      2:{ apply Forall_map. apply Forall_forall. intros q _. rewrite map_length, seq_length. reflexivity. }
+      assert (Lv : length vals = Z.to_nat (zprod bs)) by (rewrite Evals, map_length, seq_length; reflexivity).
+      rewrite <- (vtab_id' _ vals Lv). apply vtab_ext. intros p Hp. rewrite (V p Hp). rewrite map_map, cadd_0_l.
+      unfold psumf. apply csum_map_ext. intros q _.
+      change (map ?f (seq 0 (Z.to_nat (zprod bs)))) with (vtab (Z.to_nat (zprod bs)) f). rewrite vget_vtab by exact Hp. reflexivity.
+    + apply fle_or; [apply fle_refl | exact Fl].
+  - (* plain *)
+    rewrite T. cbn [Rres Rout out_le]. split.
+    + rewrite (V 0%nat) by lia. rewrite map_map. unfold psumf. apply csum_map_ext. intros q _.
+      change (map ?f (seq 0 1)) with (vtab 1 f). rewrite vget_vtab by lia. reflexivity.
+    + intros H. apply (contract_flag c fmat W) in H. revert H. apply fle_or; [apply fle_refl | exact Fl].
+Qed.
+
 (* ------------------------------------------------------------------ stores, steps, programs *)
 Definition wfs (s : store) : Prop := Forall wf s.
 Definition Rs (s : store) (ds : dstore) : Prop := Forall2 R s ds.
@@ -1363,7 +1518,7 @@ Ltac use_bind HW HR Hr dst :=
 Lemma step_refines o s ds ds' r' : wfs s -> Rs s ds -> dstep o ds = Some (ds', r') ->
   exists s' r, step o s = (s', r) /\ wfs s' /\ Rs s' ds' /\ Rres r r'.
 Proof.
-  intros HW HR. destruct o as [dst u v r cn|tgt u v fac|k dst src|tgt src|tgt src|k dst a b|dst a x f|dst a x f|a|a k|dst a i j|tgt i j v];
+  intros HW HR. destruct o as [dst u v r cn|tgt u v fac|k dst src|tgt src|tgt src|k dst a b|dst a x f|dst a x f|a|a k|dst a i j|tgt i j v|a mat rows cols];
     cbn [dstep step].
   - (* new *)
     destruct (dadd_dyad (dzero r cn) u v None) as [d|] eqn:E; [|discriminate]. intros H. injection H as <- <-.
@@ -1437,6 +1592,11 @@ Proof.
     destruct (set_refines c d i j v d' e W Rc E) as [c' [E' [W' R']]]. rewrite E'. unfold bind_inplace. cbn [fst snd].
     destruct e as [e|]; intros H; injection H as <- <-;
       (eexists _, _; split; [reflexivity|]; splits; [apply set_slot_wfs | apply set_slot_Rs | cbn]; auto).
+  - (* contract *)
+    destruct (nth_error ds a) as [d|] eqn:En; [|discriminate].
+    destruct (dcontract d mat rows cols) as [rb|] eqn:E; [|discriminate]. intros H. injection H as <- <-.
+    destruct (Rs_nth s ds a d HR HW En) as [c [Ec [W Rc]]]. rewrite Ec.
+    eexists _, _. split; [reflexivity|]. splits; auto. apply (contract_refines c d mat rows cols rb W Rc E).
 Qed.
 
 Theorem program_refines p : forall s ds ds' rs', wfs s -> Rs s ds -> drun p ds = Some (ds', rs') ->
@@ -1456,7 +1616,7 @@ Definition writes (o : op) : option nat :=
   match o with
   | ONew dst _ _ _ _ | OUn _ dst _ | OBin _ dst _ _ | OMul dst _ _ _ | ORmul dst _ _ _ | OGet dst _ _ _ => Some dst
   | OAddDyad tgt _ _ _ | OIadd tgt _ | OIsub tgt _ | OSet tgt _ _ _ => Some tgt
-  | OTodense _ | ODiag _ _ => None
+  | OTodense _ | ODiag _ _ | OContract _ _ _ _ => None
   end.
 
 Lemma set_slot_other s m c n : n <> m -> (n < length s)%nat -> nth_error (set_slot s m c) n = nth_error s n.
@@ -1473,7 +1633,7 @@ Qed.
 Lemma step_frame o s n : writes o <> Some n -> (n < length s)%nat -> nth_error (fst (step o s)) n = nth_error s n.
 Proof.
   intros Hw Hl.
-  destruct o as [dst u v r cn|tgt u v fac|k dst src|tgt src|tgt src|k dst a b|dst a x f|dst a x f|a|a k|dst a i j|tgt i j v];
+  destruct o as [dst u v r cn|tgt u v fac|k dst src|tgt src|tgt src|k dst a b|dst a x f|dst a x f|a|a k|dst a i j|tgt i j v|a mat rows cols];
     cbn [writes] in Hw; cbn [step];
     repeat match goal with
            | |- context [match get_slot ?s ?k with _ => _ end] => destruct (get_slot s k)
@@ -1482,3 +1642,4 @@ Proof.
     try (apply bind_out_other; [congruence | assumption]);
     try (unfold bind_inplace; cbn [fst]; apply set_slot_other; [congruence | assumption]).
 Qed.
+
